@@ -91,7 +91,7 @@ def run(ctx):
         for _ in range(80 * mult):
             r, g, b = (rng.choice([0, 9, 10, 15, 16, 17, 128, 200, 255, 256, 300, rng.randrange(256)]) for _ in range(3))
             rgba_cases.append((r, g, b))
-        ans_rgba = pool.run([{'kind': 'pycall', 'fn': 'color_method', 'args': ['rgba', str(r), str(g), str(b), rng.choice(['0', '0.0'])]}
+        ans_rgba = pool.run([{'kind': 'pycall', 'fn': 'color_method', 'args': ['rgba', str(r), str(g), str(b), '0']}
                              for r, g, b in rgba_cases], timeout=20)
         ans_extra = pool.run([{'kind': 'pycall', 'fn': 'color_method', 'args': [f] + args} for f, args, _, _, _ in extra], timeout=20)
         # ---- a sample through the whole compiler (Call.parse dispatch, argument passing)
